@@ -1,12 +1,12 @@
 package props
 
 import (
-	"sync"
 	"context"
 	"encoding/json"
 	"fmt"
 	"sort"
 	"strings"
+	"sync"
 	"time"
 
 	octx "github.com/orda-io/orda/client/pkg/context"
@@ -52,7 +52,6 @@ func newSvcWorld(c *core.Case, col string) (*svcWorld, error) {
 	w.colNum = b.CollectionNum(col)
 	return w, nil
 }
-
 
 // idle waits for server-side quiescence; ok=false => inconclusive.
 func (w *svcWorld) idle() bool { return w.b.Idle(20 * time.Second) }
@@ -209,6 +208,9 @@ func (w *svcWorld) close() {
 	for _, cl := range w.cls {
 		cl.CloseSDK()
 	}
+	if n := w.b.DB.StandInPanics(); n > 0 {
+		w.c.Count("harness_internal_errors", int64(n))
+	}
 	w.b.Close()
 }
 
@@ -317,6 +319,25 @@ func (w *svcWorld) replayView(typ string, ops []*schema.OperationDoc, upto uint6
 		return crdt.Canon(c.Get()), err
 	}
 	return rep.View(), err
+}
+
+// replayJSON replays stored operations of a document into a fresh datatype and returns its
+// JSON value.
+func (w *svcWorld) replayJSON(ops []*schema.OperationDoc) (interface{}, error) {
+	rep := crdt.NewRep(-1, "doc")
+	var sel []*model.Operation
+	for _, o := range ops {
+		sel = append(sel, o.GetOperation())
+	}
+	var err error
+	if pm := safely(func() {
+		if _, e := rep.W.ReceiveRemoteModelOperations(sel, false); e != nil {
+			err = e
+		}
+	}); pm != "" {
+		return nil, fmt.Errorf("replay panicked: %s", pm)
+	}
+	return crdt.Norm(rep.DT.ToJSON()), err
 }
 
 // finalAgreement: all subscribed clients of a key agree with each other, with the server's
